@@ -119,7 +119,8 @@ func genMerge(repo string) {
 	typeVisits := visits("langserver/check/check_all.go", "rebuidCreateTypeMap")
 	// the per-project second pass (ProjectFiles): the helper that sorts the project's files and the two merges that use it
 	projectVisits := append(visits("langserver/check/check_second_project.go", "sortedProjectFiles"),
-		append(visits("langserver/check/check_second_project.go", "generateAllFristGlobalGMaps"), visits("langserver/check/check_second_project.go", "handleOtherFileInsertSub")...)...)
+		append(visits("langserver/check/check_second_project.go", "generateAllFristGlobalGMaps"),
+			append(visits("langserver/check/check_second_project.go", "generateRequireFileGlobalGmaps"), visits("langserver/check/check_second_project.go", "handleOtherFileInsertSub")...)...)...)
 	// the comparisons of resultSorter.Less (workspace/symbol), in source order: what every return statement compares
 	var lessKeys []string
 	{
